@@ -533,6 +533,13 @@ pub fn gen_c05(em: &mut Emitter, rng: &mut Rng) {
     if em.mine(base + 5) {
         surplus_response_forgery::<Ps>(em, &mut rng.sub(8006), "ps");
     }
+    // hand-written encrypt-and-decrypt holder: accepted ⇒ what the key holder recovers is the signed claim
+    if em.mine(base + 10) {
+        crate::c10::ved_deviations::<Bbs>(em, &mut rng.sub(8011), "bbs", "c05");
+    }
+    if em.mine(base + 11) {
+        crate::c10::ved_deviations::<Ps>(em, &mut rng.sub(8012), "ps", "c05");
+    }
     // the byte-wise part of a decryptable encryption run on a substitute value (hand-written holder)
     if em.mine(base + 8) {
         crate::c10::verenc_byte_deviation::<Bbs>(em, &mut rng.sub(8009), "bbs", "c05");
@@ -590,7 +597,8 @@ fn c09_suite<S: ShortGroupSignatureScheme + 'static>(em: &mut Emitter, base: &mu
                 s += if high_bits_only { Scalar::from(1u64 << 63) * Scalar::from(4u64) } else { Scalar::ONE };
             }
             claims[3] = ScalarClaim::from(s).into();
-            let b = scn.issuers[c].sign_credential(&claims).unwrap();
+            let who = if k % 4 == 1 { 0 } else { c };
+            let b = scn.issuers[who].sign_credential(&claims).unwrap();
             scn.credentials.insert(scn.sig_ids[c].clone(), b.credential.clone().into());
             scn.bundles[c] = b;
         }
@@ -666,12 +674,17 @@ fn c09_suite<S: ShortGroupSignatureScheme + 'static>(em: &mut Emitter, base: &mu
                     let refs: Vec<String> = scn.sig_ids.iter().map(|id| sig_ref_tok(&v, id, n_claims)).collect();
                     em.op(format!("eq.verdict {} {} {}", if suite == "bbs" { 0 } else { 2 }, pos, refs.join(" ")), format!("{}", scn.verify(&q).is_ok()));
                     // copy the first credential's response into the others' vectors at that claim's slot
-                    let hidden_slot = pos; // nothing is disclosed, so slot = index (BBS) or index + 2 (PS)
-                    let slot = if suite == "bbs" { hidden_slot } else { hidden_slot + 2 };
+                    // slot of a hidden claim = index − #(disclosed indices below it) (BBS), + 2 (PS), per credential
+                    let slot_of = |c: usize| -> usize {
+                        let below = mix.disclosed[c].iter().filter(|l| LABELS.iter().position(|x| x == l).map(|i| i < pos).unwrap_or(false)).count();
+                        pos - below + if suite == "bbs" { 0 } else { 2 }
+                    };
                     let mut v2 = v.clone();
-                    let first = v2["proofs"][&scn.sig_ids[0]]["Signature"]["pok"]["proof"][slot].clone();
+                    let first = v2["proofs"][&scn.sig_ids[0]]["Signature"]["pok"]["proof"].get(slot_of(0)).cloned().unwrap_or(serde_json::Value::Null);
                     for c in 1..mix.n_creds {
-                        v2["proofs"][&scn.sig_ids[c]]["Signature"]["pok"]["proof"][slot] = first.clone();
+                        if let Some(x) = v2["proofs"][&scn.sig_ids[c]]["Signature"]["pok"]["proof"].get_mut(slot_of(c)) {
+                            *x = first.clone();
+                        }
                     }
                     if let Out::Ok(q2) = pres_from_value::<S>(&v2) {
                         judge(em, "c09", suite, "responses-copied", &scn, &q2, &format!("pos {}", pos));
@@ -712,7 +725,9 @@ fn c09_layouts<S: ShortGroupSignatureScheme + 'static>(em: &mut Emitter, rng: &m
             claims[1] = HashedClaim::from(format!("Name {}", if pos == 1 { g } else { 0 })).into();
             claims[2] = NumberClaim::from(41 + if pos == 2 { g as isize } else { 0 }).into();
             claims[3] = ScalarClaim::from(Scalar::from(7u64 + if pos == 3 { g as u64 } else { 0 })).into();
-            let b = scn.issuers[c].sign_credential(&claims).unwrap();
+            // every other layout: all credentials from one issuer (several references to credentials of the same issuer)
+            let who = if li % 2 == 1 { 0 } else { c };
+            let b = scn.issuers[who].sign_credential(&claims).unwrap();
             scn.credentials.insert(scn.sig_ids[c].clone(), b.credential.clone().into());
             scn.bundles[c] = b;
         }
